@@ -176,6 +176,10 @@ void NifFile::Clear() {
 
 	blocks.clear();
 	hdr.Clear();
+
+	// Keep the header pointing at this file's (now empty) block list,
+	// so a cleared or unsuccessfully loaded file can still be queried and saved safely
+	hdr.SetBlockReference(&blocks);
 }
 
 int NifFile::Load(const std::filesystem::path& fileName, const NifLoadOptions& options) {
